@@ -222,7 +222,7 @@ func genC06(o *out, r *Rng) {
 			g := NewScriptGen(r)
 			g.Prefix = fmt.Sprintf("s%d", s)
 			g.UseText, g.UseArgs, g.UsePory = true, true, r.P(40)
-			g.Texts = []string{"Hello", "Bye$", "Third one"}
+			g.Texts = []string{"Hello", "Bye$", "Third one", "Bye", "Hello$"}
 			g.AutoText = true
 			g.MaxDepth = 2
 			body := g.Block(0, false, false, 4)
@@ -238,6 +238,18 @@ func genC06(o *out, r *Rng) {
 		}
 		if r.P(30) {
 			t = append(t, "text", "UserText", "{", "\"Hello\"", "}")
+		}
+		if r.P(35) {
+			// the same literal laid out in different ways (different content, different labels), and different
+			// literals with the same final content (one label)
+			long := []string{"One two three four five six seven eight nine ten", "Hello"}[r.N(2)]
+			forms := []string{"\"" + long + "\"", "format(\"" + long + "\")", "format(\"" + long + "\", 40)", "format(\"" + long + "\", 40, \"1_latin_rse\")", "format(\"" + long + "\", maxLineLength=0x28)",
+				"format(\"" + long + "\", numLines=1)", "format(\"" + long + "\", 300)", "\"" + long + "$\"", "ascii\"" + long + "\""}
+			t = append(t, "script", fmt.Sprintf("Fm%d", i), "{")
+			for k := 2 + r.N(3); k > 0; k-- {
+				t = append(t, "msgbox", "(", forms[r.N(len(forms))], ")")
+			}
+			t = append(t, "}")
 		}
 		o.e2eBoth(t.Canon(), Opts{Sw: defSw})
 	}
@@ -289,6 +301,8 @@ func genC07(o *out, r *Rng) {
 		{"format(\"%s\", 90, cursorOverlapWidth=4, fontId=\"fB\")", "fB", 90, 0, 4}, {"format(\"%s\", \"fB\", 70, numLines=3, cursorOverlapWidth=2)", "fB", 70, 3, 2},
 		{"format(ascii\"%s\", 75)", "", 75, 0, -1}, {"format(\"%s\", \"nofont\")", "nofont", 0, 0, -1}, {"format(\"%s\", maxLineLength=0)", "", -1, 0, -1},
 		{"format(\"%s\", \"fA\", 90)", "fA", 90, 0, -1}, {"format(\"%s\", 190, \"fA\")", "fA", 190, 0, -1},
+		{"format(\"%s\", 0x50)", "", 80, 0, -1}, {"format(\"%s\", maxLineLength=0x5A)", "", 90, 0, -1}, {"format(\"%s\", \"fB\", 0120)", "fB", 80, 0, -1},
+		{"format(\"%s\", numLines=0x3, maxLineLength=0x46)", "", 70, 3, -1}, {"format(\"%s\", 0x64, cursorOverlapWidth=0xB, numLines=04)", "", 100, 4, 11},
 	}
 	for _, tx := range texts {
 		for _, fcl := range calls {
@@ -389,6 +403,16 @@ func genC09(o *out, r *Rng) {
 			}
 		}
 	}
+	// several texts in one file whose type and content differ but whose concatenation "type+content" coincides
+	for _, ty := range types[1:] {
+		for _, c := range []string{"A", "abc$", "", " x"} {
+			a, b := "\""+ty+c+"\"", ty+"\""+c+"\""
+			for _, pr := range [][2]string{{a, b}, {b, a}} {
+				o.add(E2E("script S { msgbox("+pr[0]+") msgbox("+pr[1]+") msgbox("+pr[0]+") }", Opts{Opt: true, Sw: defSw}))
+				o.add(E2E("script S { msgbox("+pr[0]+") }\nscript U { msgbox("+pr[1]+") }\ntext T { "+pr[1]+" }", Opts{Opt: true, Sw: defSw}))
+			}
+		}
+	}
 	progCases(o, r, scale(100, 3000), func(g *ProgGen) { g.UseFormat = true }, Opts{}, 0)
 }
 
@@ -402,7 +426,7 @@ func genC10(o *out, r *Rng) {
 		// straight-line stretch of commands with random argument lists; the expected output lines are built alongside
 		n := 1 + r.N(5)
 		var t Toks
-		var want []string
+		var want, texts []string
 		for c := 0; c < n; c++ {
 			name := names[r.N(len(names))]
 			if (name == "end" || name == "return") && c < n-1 && r.P(80) {
@@ -421,6 +445,13 @@ func genC10(o *out, r *Rng) {
 					depth := 0
 					nt := 1 + r.N(4)
 					var arg []string
+					if r.P(12) { // an inline text: replaced by the label of the hoisted text, in its own argument slot
+						lit := fmt.Sprintf("t%d", len(texts))
+						t = append(t, "\""+lit+"\"")
+						args = append(args, fmt.Sprintf("S_Text_%d", len(texts)))
+						texts = append(texts, lit)
+						continue
+					}
 					for k := 0; k < nt; k++ {
 						x := atoms[r.N(len(atoms))]
 						if x == ")" {
@@ -439,12 +470,16 @@ func genC10(o *out, r *Rng) {
 						}
 						t = append(t, x)
 						arg = append(arg, x)
+						if depth > 0 && x != "(" && k < nt-1 && r.P(30) { // a comma inside a parenthesised group
+							t = append(t, ",", "w")
+							arg = append(arg, ",", "w")
+						}
 					}
 					for ; depth > 0; depth-- {
 						t = append(t, "q", ")")
 						arg = append(arg, "q", ")")
 					}
-					args = append(args, strings.Join(arg, " "))
+					args = append(args, strings.ReplaceAll(strings.Join(arg, " "), " , ", ", "))
 				}
 				t = append(t, ")")
 				if len(args) > 0 {
@@ -452,6 +487,13 @@ func genC10(o *out, r *Rng) {
 				}
 			}
 			want = append(want, line)
+		}
+		last := want[len(want)-1]
+		if len(texts) > 0 && last != "end" && last != "return" {
+			want = append(want, "return") // the generated return, followed by the hoisted texts
+		}
+		for _, x := range texts {
+			want = append(want, ".string \""+x+"$\"")
 		}
 		body := t
 		src := append(append(Toks{"script", "S", "{"}, body...), "}")
@@ -492,6 +534,9 @@ func genC11(o *out, r *Rng) {
 			"script S { if (flag(A) && checkitem(\"inline text\") == 2) { a } }", "script S { if (checkitem(I) && checkitem(I) || checkitem(J)) { a } }",
 			"script S { if (specialvar(VAR_R)) { a } }", "script S { if (specialvar()) { a } }", "script S { if (random) { a } }", "script S { switch (checkitem) { case 1: a } }",
 			"script S { if (var(checkitem) == 1) { a } }",
+			"script S { poryswitch(V) { A: switch (random(4)) { case 0: a case 1: b } _: c } d }", "script S { poryswitch(V) { A { switch (random(4)) { case 0: a } } _: c } }",
+			"script S { poryswitch(V) { A: if (checkitem(I) == 2) { a } _: c } d }", "script S { poryswitch(V) { Q: c _: while (random(2) == 1) { a } } d }",
+			"script S { x poryswitch(V) { A: do { a } while (checkitem(I)) _ { c } } }", "script S { if (flag(F)) { poryswitch(W) { B: switch (specialvar(VAR_Q, F)) { case 1: c default: d } } } }",
 		} {
 			o.e2eBoth(s, Opts{Sw: defSw, Cfg: cfg})
 		}
@@ -499,6 +544,8 @@ func genC11(o *out, r *Rng) {
 	for i := 0; i < scale(400, 8000); i++ {
 		g := NewScriptGen(r)
 		g.MaxDepth = 2
+		g.UsePory = r.P(40)
+		g.Sw = defSw
 		body := g.Block(0, false, false, 4)
 		g.FixGotos(body)
 		o.e2eBoth(ScriptToks("S", "", body).Canon(), Opts{Sw: defSw, Cfg: cfgs[r.N(4)]})
@@ -545,6 +592,8 @@ func genC13(o *out, r *Rng) {
 		{"const T = 5\ntext T { \"T\" }\nscript S { msgbox(\"T\") }", "text T { \"T\" }\nscript S { msgbox(\"T\") }"},
 		{"const V = VAR_X\nconst N = 3\nscript S { if (var(V) >= N && flag(V) || defeated(N)) { a } if (var(V) == value(N)) { b } }", "script S { if (var(VAR_X) >= 3 && flag(VAR_X) || defeated(3)) { a } if (var(VAR_X) == value(3)) { b } }"},
 		{"const V = VAR_X\nconst N = 3\nmapscripts M { MAP_SCRIPT_ON_FRAME_TABLE [ V, N: Foo V, N { a } ] MAP_SCRIPT_ON_LOAD: V }", "mapscripts M { MAP_SCRIPT_ON_FRAME_TABLE [ VAR_X, 3: Foo VAR_X, 3 { a } ] MAP_SCRIPT_ON_LOAD: V }"},
+		{"const NEXT = BASE + 1\nconst BASE = 4\nscript S { foo(NEXT) bar(BASE) switch (var(V)) { case NEXT: a } }\nmapscripts M { MAP_SCRIPT_ON_FRAME_TABLE [ V, NEXT: Foo ] }", "script S { foo(BASE + 1) bar(4) switch (var(V)) { case BASE + 1: a } }\nmapscripts M { MAP_SCRIPT_ON_FRAME_TABLE [ V, BASE + 1: Foo ] }"},
+		{"const A = B\nconst B = C\nconst C = 3\nscript S { foo(A, B, C) }", "script S { foo(B, C, 3) }"},
 		{"const A = 1\nconst A = 2\nscript S { foo(A) }", "const"},
 		{"const A = 1\nscript S { a }\nconst A = 1", "const"},
 	} {
@@ -583,7 +632,7 @@ func genC14(o *out, r *Rng) {
 			}
 		}
 		var src Toks
-		switch r.N(4) {
+		switch r.N(5) {
 		case 0:
 			src = append(append(Toks{"movement", "M", "{"}, t...), "}")
 		case 1:
@@ -600,6 +649,31 @@ func genC14(o *out, r *Rng) {
 				src = append(src, ")", ")")
 			}
 			src = append(src, "}", "script", "S2", "{", "applymovement", "(", "P", ",", "moves", "(", base, ",", "walk_up", "*", "2", ")", ")", "}")
+		case 3:
+			if r.P(50) {
+				// step lists that differ as lists although their names concatenate to the same string
+				word := []string{"walk_up", "set_invisible", "face_left", "haha", "jump_2_down"}[r.N(5)] + []string{"", "walk_down", "lock_facing"}[r.N(3)]
+				split := func() Toks {
+					var out Toks
+					rest := word
+					for len(rest) > 0 {
+						k := 1 + r.N(len(rest))
+						for k < len(rest) && !(rest[k] >= 'a' && rest[k] <= 'z' || rest[k] == '_') { // every piece is an identifier
+							k++
+						}
+						out = append(out, rest[:k])
+						rest = rest[k:]
+					}
+					return out
+				}
+				src = Toks{"script", "S", "{"}
+				for k := 0; k < 2+r.N(3); k++ {
+					src = append(append(append(src, "applymovement", "(", "P", ",", "moves", "("), split()...), ")", ")")
+				}
+				src = append(src, "}")
+				break
+			}
+			fallthrough
 		default:
 			// mart
 			var it Toks
@@ -649,7 +723,7 @@ func genC15(o *out, r *Rng) {
 func genC16(o *out, r *Rng) {
 	o.dir("PROJ", "text")
 	o.dir("ORACLE", "markers")
-	paths := []string{"in.pory", "dir\\sub\\f.pory", "data/maps/Route 1/scripts.pory"}
+	paths := []string{"in.pory", "dir\\sub\\f.pory", "data/maps/Route 1/scripts.pory", "My%20Town/100%_sure/tmp%d/%s.pory", "ünï/♂.pory", "a'b/c.pory"}
 	for _, s := range Seeds {
 		for _, p := range paths[:2] {
 			o.add(E2E(s, Opts{Opt: true, Sw: defSw, LmPath: p}))
@@ -672,7 +746,10 @@ func genC16(o *out, r *Rng) {
 			src = p.A.LinePer(r)
 		}
 		opt := r.P(50)
-		o.add(E2E(src, Opts{Opt: opt, Sw: g.Sw, LmPath: paths[r.N(3)]}))
+		if r.P(20) {
+			src = strings.ReplaceAll(src, "\n", "\r\n") // a file saved with Windows line endings
+		}
+		o.add(E2E(src, Opts{Opt: opt, Sw: g.Sw, LmPath: paths[r.N(len(paths))]}))
 		o.add(E2E(src, Opts{Opt: opt, Sw: g.Sw}))
 		if r.P(30) {
 			o.add(E2E(src, Opts{Opt: opt, Sw: g.Sw, LmOn: true}))
@@ -689,8 +766,19 @@ func genC16(o *out, r *Rng) {
 			src = t.Layout(r, false)
 		}
 		opt := r.P(50)
-		o.add(E2E(src, Opts{Opt: opt, Sw: g.Sw, LmPath: paths[r.N(3)]}))
+		o.add(E2E(src, Opts{Opt: opt, Sw: g.Sw, LmPath: paths[r.N(len(paths))]}))
 		o.add(E2E(src, Opts{Opt: opt, Sw: g.Sw}))
+	}
+	// raw blocks: empty, blank lines, trailing spaces, Windows line endings, no final newline
+	raws := []string{"", "\n", "x", "\nfirst\n\n\nafter blanks\n", "  indented  \n\ttabbed\t\n", "a\r\nb\r\n", "\r\n", "last line without newline\nend"}
+	for _, rw := range raws {
+		for _, pre := range []string{"", "script A { lock }\n"} {
+			src := pre + "raw `" + rw + "`\nscript B { release }\nraw `" + rw + "`"
+			for _, p := range []string{"in.pory", ""} {
+				o.add(E2E(src, Opts{Opt: true, Sw: defSw, LmPath: p}))
+				o.add(E2E(strings.ReplaceAll(src, "\n", "\r\n"), Opts{Opt: true, Sw: defSw, LmPath: p}))
+			}
+		}
 	}
 }
 
@@ -733,6 +821,21 @@ func genC17(o *out, r *Rng) {
 			expect[strings.Join(c.Fields, "\t")] = Case{"EXPECTFMT", []string{"T", w, "60", "0", "f", "3", Hex(ftext)}}
 		}
 	}
+	// two fonts in one configuration file, compilations that differ only in -f / -l
+	wA2 := Hex(" ") + "=3;" + Hex("default") + "=6"
+	wB2 := Hex(" ") + "=2;" + Hex("default") + "=11"
+	spec2 := "fA|fA:100:3:0:" + wA2 + "|fB:100:3:0:" + wB2
+	for k := 0; k < 6; k++ {
+		for _, cli := range []string{"", "fB", "fA", "fB", ""} {
+			c := E2E(ftxt, Opts{Opt: true, Sw: defSw, FontSpec: spec2, CliFont: cli})
+			pool = append(pool, c)
+			w, f := wA2, "fA"
+			if cli == "fB" {
+				w, f = wB2, "fB"
+			}
+			expect[strings.Join(c.Fields, "\t")] = Case{"EXPECTFMT", []string{"T", w, "100", "0", f, "3", Hex(ftext)}}
+		}
+	}
 	n := len(pool) * 3
 	for i := 0; i < n; i++ {
 		c := pool[r.N(len(pool))]
@@ -740,6 +843,33 @@ func genC17(o *out, r *Rng) {
 			o.add(x)
 		}
 		o.add(c)
+	}
+	// the inline scripts of one mapscripts statement are unrelated to each other: each is emitted as it is on its own
+	for i := 0; i < scale(120, 2500); i++ {
+		ne := 2 + r.N(2)
+		perm := r.N(3)
+		var entries []Toks
+		for k := 0; k < ne; k++ {
+			sg := NewScriptGen(r)
+			sg.Prefix = fmt.Sprintf("m%d", k)
+			sg.Sw = defSw
+			sg.MaxDepth = 2
+			b := sg.Block(0, false, false, 3)
+			sg.FixGotos(b)
+			ty := []string{"MAP_SCRIPT_ON_LOAD", "MAP_SCRIPT_ON_TRANSITION", "MAP_SCRIPT_ON_RESUME"}[(perm+k)%3]
+			entries = append(entries, append(append(Toks{ty, "{"}, BlockToks(b)...), "}"))
+		}
+		whole := Toks{"mapscripts", "Mp", "{"}
+		for _, e := range entries {
+			whole = append(whole, e...)
+		}
+		whole = append(whole, "}")
+		opt := r.P(70)
+		for _, e := range entries {
+			alone := append(append(Toks{"mapscripts", "Mp", "{"}, e...), "}")
+			o.dir("EXPECTSAME", "Mp_"+e[0], Hex(alone.Canon()))
+		}
+		o.add(E2E(whole.Canon(), Opts{Opt: opt, Sw: defSw}))
 	}
 	// independence of surrounding statements: X alone vs. X among unrelated statements (no inline text: numbering would differ)
 	o.dir("ORACLE", "hist,embed")
@@ -849,6 +979,17 @@ func genC18(o *out, r *Rng) {
 		body := g.Block(0, false, false, 6)
 		g.FixGotos(body)
 		emit(ScriptToks("S", "", body).Canon())
+	}
+	// every character class the lexer distinguishes, in every place where the parser collects tokens up to a closer
+	atoms := []string{"\u0663", "\uff13\uff14", "-\u0663\u0664", "0\u0665", "0x\u0661", "7\u0663", "\u00e9", "\u02b0x", "x\u0301", "\u00a0", "\u2028", "\u200d", "\ufeff", "\x00", "\x7f", "\x1b", "\u00b2", "\u2167", "\U0001d7d8", "\xff", "#", "@", "`", "'"}
+	holes := []string{"script S { setvar(VAR_X, %s) }", "script S { setvar(%s) release }", "const K = %s\nscript S { foo(K) }", "script S { if (var(%s) == 1) { a } }", "script S { if (var(V) == %s) { a } }",
+		"script S { if (flag(%s)) { a } }", "script S { switch (var(%s)) { case 1: a } }", "script S { switch (var(V)) { case %s: a } }", "mapscripts M { MAP_SCRIPT_ON_FRAME_TABLE [ %s, 1: L ] }",
+		"mapscripts M { MAP_SCRIPT_ON_FRAME_TABLE [ V, %s: L ] }", "movement M { walk_up * %s }", "movement M { %s }", "mart M { %s }", "text T { format(\"x\", %s) }", "text T { format(\"x\", numLines=%s) }",
+		"script S { %s }", "script S { foo(moves(%s)) }", "%s", "script %s { }", "script S { poryswitch(%s) { _: a } }", "script S { L%s: goto(L%s) }", "raw %s"}
+	for _, h := range holes {
+		for _, a := range atoms {
+			emit(strings.ReplaceAll(h, "%s", a))
+		}
 	}
 	// deep nesting
 	for _, d := range []int{10, 50, scale(200, 2000)} {
